@@ -435,6 +435,71 @@ func (b *Builder) V2Spend(from *Actor, pEph float64) bool {
 	return b.TryV2(kind, txn)
 }
 
+// PassThrough builds a pair of transactions in which payer pays `through` one
+// output that `through` forwards completely (no change) to a third actor - in
+// the block the pair is confirmed in, `through` gains and loses exactly that
+// output and keeps nothing. Uses v2 transactions when allowed.
+func (b *Builder) PassThrough(through *Actor) bool {
+	var payer, to *Actor
+	for tries := 0; tries < 8 && (payer == nil || to == nil); tries++ {
+		if a := b.randActor(Miner); a != through {
+			if payer == nil && len(b.confirmedSC(a)) > 0 {
+				payer = a
+			} else if a != payer {
+				to = a
+			}
+		}
+	}
+	if payer == nil || to == nil {
+		return false
+	}
+	ins := b.confirmedSC(payer)
+	in := ins[b.Rng.IntN(len(ins))]
+	fee := b.fee()
+	if b.spentSC[in.ID] || in.SiacoinOutput.Value.Cmp(fee.Mul64(8)) < 0 {
+		return false
+	}
+	amount := in.SiacoinOutput.Value.Div64(2)
+	rest := in.SiacoinOutput.Value.Sub(amount).Sub(fee)
+	if b.V2Allowed() && (!b.V1Allowed() || b.Rng.IntN(2) == 0) {
+		t1 := types.V2Transaction{
+			SiacoinInputs:  []types.V2SiacoinInput{{Parent: in.Copy()}},
+			SiacoinOutputs: []types.SiacoinOutput{{Address: through.Addr, Value: amount}, {Address: payer.Addr, Value: rest}},
+			MinerFee:       fee,
+		}
+		b.signV2Inputs(&t1)
+		if !b.TryV2("v2-pass-through-in", t1) {
+			return false
+		}
+		t2 := types.V2Transaction{
+			SiacoinInputs:  []types.V2SiacoinInput{{Parent: t1.EphemeralSiacoinOutput(0)}},
+			SiacoinOutputs: []types.SiacoinOutput{{Address: to.Addr, Value: amount.Sub(fee)}},
+			MinerFee:       fee,
+		}
+		b.signV2Inputs(&t2)
+		return b.TryV2("v2-pass-through-out", t2)
+	}
+	if !b.V1Allowed() {
+		return false
+	}
+	t1 := types.Transaction{
+		SiacoinInputs:  []types.SiacoinInput{{ParentID: in.ID, UnlockConditions: payer.UC}},
+		SiacoinOutputs: []types.SiacoinOutput{{Address: through.Addr, Value: amount}, {Address: payer.Addr, Value: rest}},
+		MinerFees:      []types.Currency{fee},
+	}
+	b.signV1Inputs(&t1)
+	if !b.TryV1("v1-pass-through-in", t1) {
+		return false
+	}
+	t2 := types.Transaction{
+		SiacoinInputs:  []types.SiacoinInput{{ParentID: t1.SiacoinOutputID(0), UnlockConditions: through.UC}},
+		SiacoinOutputs: []types.SiacoinOutput{{Address: to.Addr, Value: amount.Sub(fee)}},
+		MinerFees:      []types.Currency{fee},
+	}
+	b.signV1Inputs(&t2)
+	return b.TryV1("v1-pass-through-out", t2)
+}
+
 // V2SiafundSpend moves siafunds.
 func (b *Builder) V2SiafundSpend(from *Actor) bool {
 	var cands []types.SiafundElement
